@@ -166,6 +166,8 @@ def classify(unit, text, res):
         if prim:
             clause = " ".join(t["text"].strip() for t in prim[0].get("text", []))[:300]
         failures.append(dict(label=label, fn=fn, msg=msg, src=srcloc, clause=clause, rendered=d.get("rendered", "")[:3000]))
+    if re.search(r"Internal Verus Error|panicked at|internal compiler error", res["stderr"]):
+        undecided.append("verus crashed: " + (re.search(r"(Internal Verus Error[^\n]*|panicked at[^\n]*)", res["stderr"]).group(1))[:300])
     if res["js"] is None and not failures and not undecided:
         undecided.append("verus produced no JSON summary: " + res["stderr"][:300])
     return failures, undecided
